@@ -636,4 +636,158 @@ theorem resolve_id (segs acc : List Bytes) (h : dot1 ∉ segs ∧ dot2 ∉ segs)
     simp only [List.foldl_cons, resolveStep, e1, e2, if_false]
     rw [ih _ ⟨h.1.2, h.2.2⟩]; simp
 
+/-! ### the buffer writers: check_segment / decode_segment -/
+
+theorem drop3 (a b c : UInt8) (t rest : Bytes) : (a :: b :: c :: t ++ rest).drop 3 = t ++ rest := rfl
+
+theorem check_decode (fuel : Nat) (seg rest : Bytes) (n : Nat) (hf : seg.length < fuel) :
+    (∀ d, pctDecode seg = some d →
+        checkSegment fuel (seg ++ rest) seg.length n = R.ok (n + d.length) ∧
+        decodeSegment fuel (seg ++ rest) seg.length = R.ok d) ∧
+    (pctDecode seg = none → checkSegment fuel (seg ++ rest) seg.length n = R.rej) := by
+  induction fuel generalizing seg n with
+  | zero => omega
+  | succ fuel ih =>
+    cases seg with
+    | nil =>
+      constructor
+      · intro d hd; simp [pctDecode] at hd; subst hd; simp [checkSegment, decodeSegment]
+      · intro hd; simp [pctDecode] at hd
+    | cons c t =>
+      by_cases hc : c = 0x25
+      · subst hc
+        cases t with
+        | nil =>
+          constructor
+          · intro d hd; rw [pctDecode.eq_def] at hd; simp at hd
+          · intro _; simp [checkSegment, rdb]
+        | cons a t1 =>
+          cases t1 with
+          | nil =>
+            constructor
+            · intro d hd; rw [pctDecode.eq_def] at hd; simp at hd
+            · intro _; simp [checkSegment, rdb]
+          | cons b t2 =>
+            have hf2 : t2.length < fuel := by simp at hf; omega
+            have ⟨ih1, ih2⟩ := ih t2 (n + 1) hf2
+            have hlen : (0x25 :: a :: b :: t2).length - 3 = t2.length := by simp
+            have hl3 : ¬ (0x25 :: a :: b :: t2 : Bytes).length < 3 := by simp
+            have hl0 : (0x25 :: a :: b :: t2 : Bytes).length ≠ 0 := by simp
+            cases hx : hexDigitVal a with
+            | none =>
+              have xa := hex_none a hx
+              constructor
+              · intro d hd; rw [pctDecode.eq_def] at hd; simp [hx] at hd
+              · intro _; simp [checkSegment, rdb, xa]
+            | some x =>
+              have ⟨da, xa, _⟩ := hex_some a x hx
+              cases hy : hexDigitVal b with
+              | none =>
+                have xb := hex_none b hy
+                constructor
+                · intro d hd; rw [pctDecode.eq_def] at hd; simp [hx, hy] at hd
+                · intro _; simp [checkSegment, rdb, xa, xb]
+              | some y =>
+                have ⟨db, xb, _⟩ := hex_some b y hy
+                have cs : checkSegment (fuel + 1) (0x25 :: a :: b :: t2 ++ rest) (0x25 :: a :: b :: t2 : Bytes).length n =
+                    checkSegment fuel (t2 ++ rest) t2.length (n + 1) := by
+                  rw [checkSegment]
+                  simp only [hl0, hl3, if_false, rdb, hlen]
+                  simp [xa, xb]
+                cases ht : pctDecode t2 with
+                | none =>
+                  constructor
+                  · intro d hd; rw [pctDecode.eq_def] at hd; simp [hx, hy, ht] at hd
+                  · intro _; rw [cs]; exact ih2 ht
+                | some t' =>
+                  constructor
+                  · intro d hd
+                    rw [pctDecode_esc _ _ _ _ _ _ hx hy ht] at hd
+                    have hd := (Option.some.inj hd).symm
+                    subst hd
+                    have ⟨c1, c2⟩ := ih1 t' ht
+                    constructor
+                    · rw [cs, c1]; simp; omega
+                    · rw [decodeSegment]
+                      simp only [hl0, hl3, if_false, rdb, hlen]
+                      simp [c2, da, db, ofNat_mod256]
+                  · intro hd; rw [pctDecode_esc _ _ _ _ _ _ hx hy ht] at hd; cases hd
+      · have hf2 : t.length < fuel := by simp at hf; omega
+        have ⟨ih1, ih2⟩ := ih t (n + 1) hf2
+        have cs : checkSegment (fuel + 1) (c :: t ++ rest) (c :: t).length n =
+            checkSegment fuel (t ++ rest) t.length (n + 1) := by
+          rw [checkSegment]; simp [rdb, hc]
+        cases ht : pctDecode t with
+        | none =>
+          constructor
+          · intro d hd; rw [pctDecode.eq_def] at hd; simp [hc, ht] at hd
+          · intro _; rw [cs]; exact ih2 ht
+        | some t' =>
+          constructor
+          · intro d hd
+            rw [pctDecode_cons_plain _ _ _ hc ht] at hd
+            have hd := (Option.some.inj hd).symm
+            subst hd
+            have ⟨c1, c2⟩ := ih1 t' ht
+            constructor
+            · rw [cs, c1]; simp; omega
+            · rw [decodeSegment]; simp [rdb, hc, c2]
+          · intro hd; rw [pctDecode_cons_plain _ _ _ hc ht] at hd; cases hd
+
+/-- what write_option() does with one raw segment: nothing if it is malformed or does not fit -/
+def writeS (seg : Bytes) (st : Cnt) : Cnt :=
+  if st.buflen - usedBy st.segs = 0 then st else
+  match pctDecode seg with
+  | none => st
+  | some d =>
+    if optHdr (st.buflen - usedBy st.segs) d.length = 0 then st
+    else if st.buflen - usedBy st.segs - optHdr (st.buflen - usedBy st.segs) d.length < d.length then st
+    else { st with segs := st.segs ++ [d] }
+
+theorem writeOption_eq (seg rest : Bytes) (st : Cnt) :
+    writeOption (seg ++ rest) seg.length st = R.ok (writeS seg st) := by
+  unfold writeOption writeS
+  by_cases h0 : st.buflen - usedBy st.segs = 0
+  · simp [h0]
+  · have ⟨h1, h2⟩ := check_decode (seg.length + 1) seg rest 0 (by omega)
+    simp only [h0, if_false]
+    cases hd : pctDecode seg with
+    | none => rw [h2 hd]
+    | some d =>
+      have ⟨c1, c2⟩ := h1 d hd
+      rw [c1]
+      simp only [Nat.zero_add, c2]
+      by_cases h3 : optHdr (st.buflen - usedBy st.segs) d.length = 0
+      · simp [h3]
+      · by_cases h4 : st.buflen - usedBy st.segs - optHdr (st.buflen - usedBy st.segs) d.length < d.length
+        · simp [h3, h4]
+        · simp [h3, h4]
+
+def pathStepBuf (seg : Bytes) (st : Cnt) : Cnt :=
+  if dotKind seg = 1 then st else if dotKind seg = 2 then backupSegment st else writeS seg st
+
+theorem pathHandlerBuf_eq (seg rest : Bytes) (st : Cnt) :
+    pathHandlerBuf (seg ++ rest) seg.length st = R.ok (pathStepBuf seg st) := by
+  unfold pathHandlerBuf pathStepBuf
+  rw [dots_eq]
+  by_cases h1 : dotKind seg = 1
+  · simp [h1]
+  · by_cases h2 : dotKind seg = 2
+    · simp [h2]
+    · simp [h1, h2, writeOption_eq]
+
+theorem splitPathBuf_fold (input : Bytes) (buflen : Nat) :
+    MU.splitPath input buflen =
+      R.ok ((rawSegs pathStop pathSep input).foldl (fun s seg => pathStepBuf seg s) ⟨buflen, []⟩).segs := by
+  have := segLoop_eq pathHandlerBuf pathStepBuf pStop pSep pathHandlerBuf_eq input [] ⟨buflen, []⟩
+  simp only [List.nil_append, List.length_nil, pStop_eq, pSep_eq] at this
+  simp only [MU.splitPath, rawSegs, pStop_eq, pSep_eq, this]
+
+theorem splitQueryBuf_fold (input : Bytes) (buflen : Nat) :
+    MU.splitQuery input buflen =
+      R.ok ((rawSegs queryStop querySep input).foldl (fun s seg => writeS seg s) ⟨buflen, []⟩).segs := by
+  have := segLoop_eq writeOption writeS qStop qSep writeOption_eq input [] ⟨buflen, []⟩
+  simp only [List.nil_append, List.length_nil, qStop_eq, qSep_eq] at this
+  simp only [MU.splitQuery, rawSegs, qStop_eq, qSep_eq, this]
+
 end Coap.UriL
